@@ -951,7 +951,7 @@ fn enumerated(opts: &Opts, acc: &mut Acc) {
 
 fn run(opts: &Opts, acc: &mut Acc) {
     enumerated(opts, acc);
-    let n = opts.tier.pick(20_000, 400_000);
+    let n = opts.tier.pick(60_000, 1_000_000);
     let corruptions = 7;
     let max_trunc = opts.tier.pick(12, 64);
     random_genomes(acc, opts, "generated", n, 900, |gn, a| check_generated(gn, corruptions, max_trunc, a));
